@@ -186,6 +186,13 @@ def layout_cases(tier):
         exact = int(Fraction(str(fill)) * ntraps)
         for natoms in (exact - 1, exact, exact + 1):
             out.append(("fill", fill, 1, None, ntraps, natoms))
+    # every register-level limit also for registers that come from a (valid) layout
+    for fill, ntraps in ((0.5, 6), (1.0, 6), (0.5, 20), (1.0, 7)):
+        for natoms in sorted({1, int(ntraps * fill) - 1, int(ntraps * fill)}):
+            if natoms >= 1:
+                for maxatoms in (natoms - 1, natoms, natoms + 1):
+                    if maxatoms >= 1:
+                        out.append(("fillmax", fill, ntraps, natoms, maxatoms))
     for dd in (D - E, D, D + E):
         out.append(("trapgeom", dd))
     for rr in (R - E, R, R + E):
@@ -235,6 +242,27 @@ def check_layout(case):
                     pdev.validate_register(auto)
                 except Exception as e:
                     out.append((f"C12:automatic-layout-rejected:{type(e).__name__}", f"{natoms} atoms, max filling {fill}, traps [{mint},{maxt}]: {e}"[:250]))
+            return out + [("@layout", "")]
+        if case[0] == "fillmax":
+            from pulser import Sequence
+
+            _, fill, ntraps, natoms, maxatoms = case
+            dev = make_device(dict(dimensions=2, max_atom_num=maxatoms, min_atom_distance=D, max_radial_distance=None),
+                              max_layout_filling=fill, min_layout_traps=1, max_layout_traps=None)
+            L = RegisterLayout([(5.0 * i, 0.0) for i in range(ntraps)])
+            reg = L.define_register(*range(natoms))
+            want = natoms <= maxatoms and Fraction(natoms, ntraps) <= Fraction(str(fill))
+            for how, call in (("validate_register", lambda: dev.validate_register(reg)), ("Sequence", lambda: Sequence(reg, dev))):
+                try:
+                    call()
+                    ok, err = True, None
+                except Exception as e:
+                    ok, err = False, e
+                if want and not ok:
+                    out.append((f"C12:fitting-layout-register-refused:{type(err).__name__}", f"{how}: {natoms} atoms (max {maxatoms}) on {ntraps} traps, filling {fill}: {err}"[:250]))
+                elif ok and not want:
+                    why = "atoms" if natoms > maxatoms else "filling"
+                    out.append((f"C12:misfit-layout-register-accepted:{why}", f"{how}: {natoms} atoms (max {maxatoms}) on {ntraps} traps, max filling {fill}"))
             return out + [("@layout", "")]
         if case[0] == "trapgeom":
             dev = make_device(dict(dimensions=2, max_atom_num=None, min_atom_distance=D, max_radial_distance=None), max_layout_filling=1.0)
@@ -343,7 +371,7 @@ def worker(case):
     k = case[0]
     if k == "reg":
         return check_register(case[1:])
-    if k in ("fill", "trapgeom", "trapradius"):
+    if k in ("fill", "fillmax", "trapgeom", "trapradius"):
         return check_layout(case)
     return check_constructor(case)
 
